@@ -1365,3 +1365,189 @@ pub fn c07_prims(inp: &PV) -> PV {
     }
     PV::List(out)
 }
+
+// ------------------------------------------------------------------ C14 derivative clause: reverse-derivative lenses of polynomial circuits
+use crate::conv::{poly_arity, P_ADD, P_CONST, P_COPY, P_DISCARD, P_MUL, P_NEG, P_ZERO};
+#[derive(Clone)]
+pub struct RDLens {
+    /// the single object label of the circuit theory
+    pub obj: T,
+}
+fn plab(k: u64) -> L {
+    K::mk_l(tm::c(k, crate::explore::lw()))
+}
+impl RDLens {
+    fn o(&self) -> L {
+        K::mk_l(self.obj)
+    }
+    fn kind(x: &L) -> u64 {
+        tm::as_const(K::rd_l(x)).expect("polynomial circuits have concrete operation labels")
+    }
+}
+impl lax::optic::Optic<L, L, L, L> for RDLens {
+    fn fwd_object(&self, _o: &L) -> Vec<L> {
+        vec![self.o()]
+    }
+    fn rev_object(&self, _o: &L) -> Vec<L> {
+        vec![self.o()]
+    }
+    fn residual(&self, a: &L) -> Vec<L> {
+        match Self::kind(a) {
+            P_MUL => vec![self.o(), self.o()],
+            _ => vec![],
+        }
+    }
+    /// forward part: the operation itself, keeping what the reverse part needs
+    fn fwd_operation(&self, a: &L, _s: &[L], _t: &[L]) -> LOH {
+        let o = self.o();
+        match Self::kind(a) {
+            // (x, y) |-> (x * y, x, y)
+            P_MUL => {
+                let mut f = LOH::empty();
+                let (_, (sx, tx)) = f.new_operation(plab(P_COPY), vec![o.clone()], vec![o.clone(), o.clone()]);
+                let (_, (sy, ty)) = f.new_operation(plab(P_COPY), vec![o.clone()], vec![o.clone(), o.clone()]);
+                let (_, (sm, tmul)) = f.new_operation(plab(P_MUL), vec![o.clone(), o.clone()], vec![o.clone()]);
+                f.unify(tx[0], sm[0]);
+                f.unify(ty[0], sm[1]);
+                f.sources = vec![sx[0], sy[0]];
+                f.targets = vec![tmul[0], tx[1], ty[1]];
+                f
+            }
+            k => {
+                let (na, nb) = poly_arity(k);
+                LOH::singleton(plab(k), vec![o.clone(); na], vec![o; nb])
+            }
+        }
+    }
+    /// reverse part: residual ● R(target) -> R(source)
+    fn rev_operation(&self, a: &L, _s: &[L], _t: &[L]) -> LOH {
+        let o = self.o();
+        let single = |k: u64| {
+            let (na, nb) = poly_arity(k);
+            LOH::singleton(plab(k), vec![o.clone(); na], vec![o.clone(); nb])
+        };
+        match Self::kind(a) {
+            // dz |-> (dz, dz)
+            P_ADD => single(P_COPY),
+            // (x, y, dz) |-> (y * dz, x * dz)
+            P_MUL => {
+                let mut f = LOH::empty();
+                let x = f.new_node(o.clone());
+                let y = f.new_node(o.clone());
+                let (_, (sd, td)) = f.new_operation(plab(P_COPY), vec![o.clone()], vec![o.clone(), o.clone()]);
+                let (_, (s1, t1)) = f.new_operation(plab(P_MUL), vec![o.clone(), o.clone()], vec![o.clone()]);
+                let (_, (s2, t2)) = f.new_operation(plab(P_MUL), vec![o.clone(), o.clone()], vec![o.clone()]);
+                f.unify(y, s1[0]);
+                f.unify(td[0], s1[1]);
+                f.unify(x, s2[0]);
+                f.unify(td[1], s2[1]);
+                f.sources = vec![x, y, sd[0]];
+                f.targets = vec![t1[0], t2[0]];
+                f
+            }
+            P_NEG => single(P_NEG),
+            // (dz1, dz2) |-> dz1 + dz2
+            P_COPY => single(P_ADD),
+            // () |-> 0
+            P_DISCARD => single(P_ZERO),
+            // dz |-> ()
+            P_CONST | P_ZERO => single(P_DISCARD),
+            k => panic!("ENGINE-ERROR: unknown polynomial operation {}", k),
+        }
+    }
+}
+/// interpreter of the polynomial signature over the Vec backend with value type V
+pub fn poly_interpreter(labels: SemifiniteFunction<VK, L>, inputs: IndexedCoproduct<VK, SemifiniteFunction<VK, V>>) -> IndexedCoproduct<VK, SemifiniteFunction<VK, V>> {
+    use open_hypergraphs::array::vec::VecArray;
+    let vw = crate::explore::vw();
+    let vals: Vec<T> = inputs.values.0 .0.iter().map(|v| K::rd_v(v)).collect();
+    let mut p = 0;
+    let mut sizes = vec![];
+    let mut outs: Vec<T> = vec![];
+    for (l, sz) in labels.0 .0.iter().zip(inputs.sources.table.0.iter()) {
+        let k = RDLens::kind(l);
+        let xs = &vals[p..p + sz];
+        p += sz;
+        let ys: Vec<T> = match k {
+            P_ADD => vec![tm::add(xs[0], xs[1])],
+            P_MUL => vec![tm::mul(xs[0], xs[1])],
+            P_NEG => vec![tm::sub(tm::c(0, vw), xs[0])],
+            P_COPY => vec![xs[0], xs[0]],
+            P_DISCARD => vec![],
+            P_CONST => vec![tm::c(5, vw)],
+            P_ZERO => vec![tm::c(0, vw)],
+            k => panic!("ENGINE-ERROR: unknown polynomial operation {}", k),
+        };
+        sizes.push(ys.len());
+        outs.extend(ys);
+    }
+    IndexedCoproduct::from_semifinite(SemifiniteFunction(VecArray(sizes)), SemifiniteFunction(VecArray(outs.into_iter().map(K::mk_v).collect()))).expect("interpreter output")
+}
+/// inputs: circuit (lax, concrete wiring, labels = polynomial operations), x values, dy values
+pub fn c14_derivative(inp: &PV) -> PV {
+    use lax::optic::Optic as LO;
+    use open_hypergraphs::array::vec::VecArray;
+    let f = lax_build(inp.at(0).lax());
+    let obj = inp.at(0).lax().nodes.first().copied().unwrap_or_else(|| tm::c(0, crate::explore::lw()));
+    let lens = RDLens { obj };
+    let adapted = LO::map_adapted(&lens, f);
+    let strict = adapted.clone().to_strict();
+    let mut ins: Vec<V> = inp.at(1).ts().into_iter().map(K::mk_v).collect();
+    ins.extend(inp.at(2).ts().into_iter().map(K::mk_v));
+    let r = open_hypergraphs::strict::eval::eval::<VK, L, L, V>(&strict, VecArray(ins), poly_interpreter);
+    PV::List(vec![
+        match r {
+            None => PV::None,
+            Some(v) => PV::Some(Box::new(PV::of_ts(&v.0.iter().map(|x| K::rd_v(x)).collect::<Vec<T>>()))),
+        },
+        pv_bool(strict.is_monogamous()),
+        pv_bool(strict.is_acyclic()),
+        pv_lax(&adapted),
+    ])
+}
+
+// ------------------------------------------------------------------ C06 addendum: SemifiniteArrow; C08 addendum: VecKind-only iterators
+pub fn c06_semifinite_arrow(inp: &PV) -> PV {
+    use open_hypergraphs::semifinite::{SemifiniteArrow as SA, SemifiniteObject as SO};
+    let (f, g) = (ff_raw(inp.at(0).ff()), ff_raw(inp.at(1).ff()));
+    let l = sl(&inp.at(2).ts());
+    let show_obj = |o: SO<K, L>| match o {
+        SO::Finite(n) => PV::Some(Box::new(PV::T(K::rd_i(&n)))),
+        SO::Set(_) => PV::None,
+    };
+    let show = |a: Option<SA<K, L>>| match a {
+        None => PV::None,
+        Some(SA::Identity) => PV::Tag("Identity".into(), vec![]),
+        Some(SA::Finite(h)) => PV::Tag("Finite".into(), vec![pv_ff(&h)]),
+        Some(SA::Semifinite(h)) => PV::Tag("Semifinite".into(), vec![pv_labels(&h)]),
+    };
+    let (af, ag, al): (SA<K, L>, SA<K, L>, SA<K, L>) = (f.clone().into(), g.clone().into(), l.clone().into());
+    PV::List(vec![
+        show(af.compose(&ag)),
+        show(af.compose(&al)),
+        show(al.compose(&af)),
+        show(af.compose(&SA::Identity)),
+        show(SA::<K, L>::Identity.compose(&af)),
+        show_obj(af.source()),
+        show_obj(af.target()),
+        show_obj(al.source()),
+        show_obj(al.target()),
+        show(Some(SA::<K, L>::identity(SO::Finite(f.target())))),
+        show(Some(SA::<K, L>::identity(SO::Set(core::marker::PhantomData)))),
+    ])
+}
+/// the VecKind-only slice iterators (labels of type L, concrete sizes)
+pub fn c08_vec_iter(inp: &PV) -> PV {
+    use open_hypergraphs::array::vec::VecArray;
+    let mk = |r: &RawIC| -> IndexedCoproduct<VK, SemifiniteFunction<VK, L>> {
+        let sizes = VecArray(r.sizes.iter().map(|t| RawLax::id(*t)).collect::<Vec<usize>>());
+        IndexedCoproduct::from_semifinite(SemifiniteFunction(sizes), SemifiniteFunction(VecArray(r.vals.iter().map(|t| K::mk_l(*t)).collect::<Vec<L>>()))).expect("gen")
+    };
+    let (a, b) = (mk(inp.at(0).ic()), mk(inp.at(1).ic()));
+    let x = SemifiniteFunction::<VK, L>(VecArray(inp.at(2).ts().iter().map(|t| K::mk_l(*t)).collect()));
+    let ls = |s: &[L]| PV::of_ts(&s.iter().map(|l| K::rd_l(l)).collect::<Vec<T>>());
+    let slices = PV::List(a.iter().map(|s| ls(s)).collect());
+    let ops = Operations::<VK, L, L>::new(x, a, b).expect("gen: operation batch");
+    let triples = PV::List(ops.iter().map(|(l, s, t)| PV::List(vec![PV::T(K::rd_l(l)), ls(s), ls(t)])).collect());
+    PV::List(vec![slices, triples])
+}
